@@ -491,14 +491,17 @@ sys.path.insert(0, %r)
 from vlib import bootstrap
 bootstrap.install(twin_dir=os.environ.get('VERIF_TWIN_DIR'))
 from falcon.cyutil.reader import BufferedReader
-data = b'0123456789abcdefg'
+data = b'YYYYY'
 pos = [0]
 def read(n):
     out = data[pos[0]:pos[0] + n]; pos[0] += len(out); return out
-rd = BufferedReader(read, 19, 64)          # source ends 2 bytes before max_stream_len
-assert rd.read(65) == data
-child = rd.delimit(b'--')
-print(child.read_until(b'--', 0))
+rd = BufferedReader(read, 5, 7)
+child = rd.delimit(b'YYYYY')               # the data starts with the delimiter: the child is empty
+assert child.read(-1) == b''
+g = child.delimit(b'YYYYY')                # its source ends long before the max_stream_len it was given
+import io
+g.pipe(io.BytesIO())                       # _read() moves _buffer_pos past the (empty) buffer
+print(g.readline(14))                      # never returns on the built twin
 print('terminated')
 '''
 
@@ -509,8 +512,8 @@ def probe_twin_overshoot(rec):
     import subprocess
     import sys
     from vlib import bootstrap
-    wit = {'reader': 'cython-' + rec.mode, 'data': b'0123456789abcdefg', 'maxlen': 19, 'chunk_size': 64,
-           'history': [('read', 65), ('delimit', b'--', (('read_until', b'--', 0, False),))]}
+    wit = {'reader': 'cython-' + rec.mode, 'data': b'YYYYY', 'maxlen': 5, 'chunk_size': 7,
+           'history': [('delimit', b'YYYYY', (('read', -1), ('delimit', b'YYYYY', (('pipe',), ('readline', 14)))))]}
     try:
         r = subprocess.run([sys.executable, '-c', PROBE % bootstrap.VERIF], capture_output=True, text=True, timeout=20)
         rec.count('probe.twin_overshoot.terminated')
